@@ -19,7 +19,7 @@ ID = 'C04'
 
 MANIFEST = dict(
     technique='explicit-state enumeration of all arg-max paths x margin styles x batch compositions; real greedy decoders and the real engine on a TorchScript stub vs the CTC-collapse reference',
-    text='Bounded exhaustive: every arg-max path over 2..4 classes and up to 6 frames, in four score styles (incl. exact ties resolved to the first maximal index), decoded alone, as one batch per length, and in every ordered pair (T<=3) / triple (T<=2) of lines, through greedy_decode_ctc, the real PytorchEngineLineOCR.run_ocr (stub network reproducing the tensor), GreedyDecoder and greedy_filtration; every result is compared with the reference collapse, and the input tensor must stay unmodified. Added sub-sweeps: un-normalised scores of magnitude 5000, a character table containing U+200B, logits held while the next batch runs, the engine\'s logits handed to GreedyDecoder through a TextLine, lines of 300 frames, a batch of 300 lines and a 33 001-class output layer. A character table with an entry of two code points built through the engine constructor; one TextLine object that is handed the logits of line after line.',
+    text='Bounded exhaustive: every arg-max path over 2..4 classes and up to 6 frames, in four score styles (incl. exact ties resolved to the first maximal index), decoded alone, as one batch per length, and in every ordered pair (T<=3) / triple (T<=2) of lines, through greedy_decode_ctc, the real PytorchEngineLineOCR.run_ocr (stub network reproducing the tensor), GreedyDecoder and greedy_filtration; every result is compared with the reference collapse, and the input tensor must stay unmodified. Added sub-sweeps: un-normalised scores of magnitude 5000, a character table containing U+200B, logits held while the next batch runs, the engine\'s logits handed to GreedyDecoder through a TextLine, lines of 300 frames, a batch of 300 lines and a 33 001-class output layer. A character table with an entry of two code points built through the engine constructor; one TextLine object that is handed the logits of line after line. A score style with classes of probability exactly zero (-inf scores / log-probabilities in losing classes: one-hot frames, one masked class, none, alternating) and, for the large scores, the float32 log(softmax) that underflows to -inf, through all three decoders; greedy_decode_ctc is also given the character table without an entry for the blank class (the real symbols only, as list and as tuple): it may refuse it, a returned text must be the collapse.',
     note='Exact ties are only placed on classes after the intended one (arg-max = first maximal index, the numpy / torch convention); the 2-D input branch of greedy_decode_ctc is not part of the property; T > 6 is not explored.',
     ref='3/C04')
 
@@ -435,7 +435,8 @@ def describe(tier):
                 'as one batch, every ordered pair (T<=Tp) and triple (T<=Tt). state = distinct (C, path). Non-trivial: a path '
                 'whose collapse merges a repeat, or a batch that mixes empty and non-empty results.',
         'bounds': b, 'alphabets': {'styles': STYLES, 'classes': [2, 3, 4]},
-        'assumptions': ['with exact ties the arg-max is the first maximal index (numpy / torch convention)', 'scores are integers 0..255 so that they can be painted into uint8 line images'],
+        'assumptions': ['with exact ties the arg-max is the first maximal index (numpy / torch convention)', 'scores are integers 0..255 so that they can be painted into uint8 line images (the styles huge and masked do not go through the engine)',
+                        '-inf only ever stands in a class that loses its frame; NaN and +inf are not explored (the arg-max would not be defined)'],
         'min_nontrivial': 50,
-        'required_tags': ['non-nfc-character-table', 'process_lines-sparse-hand-over', 'output-layer-beyond-int16', 'more-than-255-frames-or-lines', 'huge-scores', 'repeat-merged', 'first-frame-non-blank', 'all-blank-line', 'batch-with-empty-and-non-empty-lines'],
+        'required_tags': ['zero-probability-classes', 'underflowed-softmax-log-probs', 'table-without-blank-entry', 'non-nfc-character-table', 'process_lines-sparse-hand-over', 'output-layer-beyond-int16', 'more-than-255-frames-or-lines', 'huge-scores', 'repeat-merged', 'first-frame-non-blank', 'all-blank-line', 'batch-with-empty-and-non-empty-lines'],
     }
